@@ -831,6 +831,32 @@ func ruleClosePathsReachCarrier(c *Ctx, rule string) {
 				}
 			}
 		}
+		// ... or a named function / method value handed to the channel constructor as tear-down callback
+		allInstrs(start, func(in ssa.Instruction) {
+			call, isC := in.(*ssa.Call)
+			if !isC || !w.isRoleCall(call, "newTunnelChannel") {
+				return
+			}
+			for _, a := range call.Call.Args {
+				f := funcValueTarget(a)
+				if f == nil || !w.inRoot(f) {
+					continue
+				}
+				if mayExecute(f, func(x ssa.Instruction) bool {
+					ci, ok := x.(ssa.CallInstruction)
+					if !ok {
+						return false
+					}
+					if k, isOp := w.carrierOp(ci); isOp && k == "carrier-closesend" {
+						return true
+					}
+					g := staticCallee(ci)
+					return g != nil && g.Name() == "CloseSend" && g.Signature.Recv() != nil && w.isCarrierType(g.Signature.Recv().Type())
+				}, 1) {
+					okTD = true
+				}
+			}
+		})
 	}
 	c.check(okTD, rule, "forward tunnel tear-down half-closes the carrier", posOf(w, start), "tearDown closure calls CloseSend", "the forward channel's tear-down callback no longer half-closes the carrier stream: Close() would not end the tunnel on the server")
 	stop := w.Func("(*ReverseTunnelServer).Stop")
@@ -1682,7 +1708,7 @@ func (c *Ctx) invokeSendFailureReturns() (inv *ssa.Function, rets []*ssa.Return)
 		return inv, nil
 	}
 	var sends, recvs []ssa.Instruction
-	allInstrsLocal(inv, func(in ssa.Instruction) {
+	allInstrs(inv, func(in ssa.Instruction) { // incl. a single-use helper that sends the request
 		if ci, ok := in.(*ssa.Call); ok {
 			switch staticCallee(ci) {
 			case a.ClientSend:
@@ -1744,7 +1770,7 @@ func ruleInvokeAborts(c *Ctx, rule string) {
 		dr := mustPrecede(ret, isDoneRecv)
 		c.check(cn != nil && dr != nil, rule, key, w.At(ret), "preceded by cancel-stream and a receive from "+done.String(), "Invoke returns the send error without finishing the stream (cancel-stream: "+fmt.Sprint(cn != nil)+", wait for the done signal: "+fmt.Sprint(dr != nil)+"): the handler, the context watcher and both table entries stay until the caller's context ends (never, for context.Background()), and when the stream is finished later its goroutine writes the caller's grpc.Header / grpc.Trailer variables after Invoke returned — a data race with the application")
 	}
-	c.floor(rule, len(rets), 2, "send-failure returns of Invoke (SendMsg, CloseSend)")
+	c.floor(rule, len(rets), 1, "send-failure returns of Invoke (SendMsg, CloseSend)")
 }
 
 // ruleInvokeReportsOutcome (C02.11): the error of such a return is the RPC's recorded outcome when there is one.
@@ -1778,5 +1804,5 @@ func ruleInvokeReportsOutcome(c *Ctx, rule string) {
 		}
 		c.check(ok, rule, key, w.At(ret), "may return the stream's recorded outcome", "the returned error is "+desc(t[len(t)-1])+", never the stream's recorded outcome: a unary call to a refused stream (unknown method, shutting down) with a request larger than the flow-control window fails with a bare 'context canceled' instead of the server's status (Unimplemented / Unavailable)")
 	}
-	c.floor(rule, len(rets), 2, "send-failure returns of Invoke (SendMsg, CloseSend)")
+	c.floor(rule, len(rets), 1, "send-failure returns of Invoke (SendMsg, CloseSend)")
 }
